@@ -224,7 +224,7 @@ def parse_wfx(lit: LineIterator, required_tags: Optional[list] = None) -> dict:
 
 
 @document_load_one(
-    "WFX", ["atcoords", "atgradient", "atnums", "energy", "extra", "mo", "obasis", "title"]
+    "WFX", ["atcoords", "atnums", "energy", "extra", "mo", "obasis", "title"], ["atgradient"]
 )
 def load_one(lit: LineIterator) -> dict:
     """Do not edit this docstring. It will be overwritten."""
